@@ -156,6 +156,7 @@ func run(r *ev.Run) {
 	jobs = append(jobs, readJobs(r)...)
 	jobs = append(jobs, historyJobs(r)...)
 	runJobs(24, jobs)
+	runRetryCases(r)
 
 	if os.Getenv("VERIF_ONLY") != "" {
 		return // replay of one case: coverage requirements do not apply
@@ -178,5 +179,7 @@ func run(r *ev.Run) {
 	}
 	{
 		r.Require("history", "receive", "fetch", "stat", "enumerate", "remove", "re-receive", "audit")
+		r.Require("retry_scenarios", "retry-after-failed-write", "only-read-replica-has-it")
+		r.Require("retry_outcomes", "ack", "error")
 	}
 }
